@@ -496,6 +496,28 @@ func main() {
 	}
 	fmt.Fprintf(&b, "def readOnlyGuard : String := %s\n\n", leanStr(guard))
 
+	// how Run sets the sticky read-only flag
+	sticky := ""
+	ast.Inspect(vm["EVMInterpreter.Run"].decl.Body, func(n ast.Node) bool {
+		is, ok := n.(*ast.IfStmt)
+		if !ok || sticky != "" {
+			return true
+		}
+		assigns := false
+		var stmts []string
+		for _, st := range is.Body.List {
+			if as, ok := st.(*ast.AssignStmt); ok && len(as.Lhs) == 1 && src(as.Lhs[0]) == "in.readOnly" {
+				assigns = true
+			}
+			stmts = append(stmts, src(st))
+		}
+		if assigns {
+			sticky = "if " + src(is.Cond) + " { " + strings.Join(stmts, "; ") + " }"
+		}
+		return true
+	})
+	fmt.Fprintf(&b, "def readOnlySticky : String := %s\n\n", leanStr(sticky))
+
 	// ---- AccountDB.Prepare
 	var assigns []string
 	if f := acct["AccountDB.Prepare"]; f != nil {
